@@ -63,3 +63,20 @@ def shrink_candidates(scn):
         s = copy.deepcopy(scn)
         s["nops"] = [1] * n
         yield s
+
+
+def extra(tier, seed):
+    from ..common import Violation
+    n = 40 if tier == "quick" else 300
+    base_d = toolscmp.jitter_digests(seed, n)
+    viol = []
+    seeds = [1, 31337] if tier == "quick" else [1, 2, 3, 31337, 99]
+    for hs in seeds:
+        other = toolscmp.fresh_jitter_digests(seed, n, hs)
+        for i, (a, b) in enumerate(zip(base_d, other)):
+            if a != b and len(viol) < 2:
+                viol.append({"idx": i, "family": "jitter_fresh", "scenario": None,
+                             "violation": Violation("C20.jitter.differs_across_processes", {
+                                 "scenario_index": i, "PYTHONHASHSEED": hs, "this_process": a, "fresh_interpreter": b}).to_json()})
+    return {"jitter_fresh_interpreter_comparisons": {"traces": n, "hash_seeds": seeds, "mismatches": len(viol)},
+            "violations": viol}
